@@ -456,6 +456,21 @@ func (k *knownFile) match(v *Violation) string {
 	return first
 }
 
+// Abort records v as a violation found outside a scenario body (e.g. by a hang watchdog), writes the report and the
+// evidence and terminates the process with the resulting exit code. Scenario goroutines still running are abandoned.
+func (r *Run) Abort(scenario string, v *Violation, note string) {
+	v.Property, v.Tier, v.Seed, v.Build, v.RepoHead = r.Prop, r.Tier, r.Seed, r.Build, r.RepoHead
+	if v.Scenario == "" {
+		v.Scenario = scenario
+	}
+	r.mu.Lock()
+	r.viol = append(r.viol, v)
+	r.scen = append(r.scen, ScenarioResult{Name: scenario, Evals: 1, States: 1, Transitions: 1, Nontrivial: 2, Classes: map[string]int64{"aborted": 1}, Exhaustive: false, Violations: 1, Note: note})
+	r.samples = append(r.samples, map[string]interface{}{"scenario": scenario, "case": string(v.Input)})
+	r.mu.Unlock()
+	os.Exit(r.Finish())
+}
+
 // ---- finishing ----
 
 func (r *Run) repoHead() string { return r.RepoHead }
